@@ -390,6 +390,10 @@ class Interp:
         if isinstance(base, Obj):
             if attr in base.attrs:
                 return base.attrs[attr]
+            if attr == '__dict__':
+                return {k: v for k, v in base.attrs.items() if not k.startswith('_')}
+            if attr == '__class__':
+                return ClassRef(base.kind)
             m = self.methods.get(base.kind, {}).get(attr)
             if m is not None:
                 return lambda *a, **k: self.call_function(m, [base] + list(a), dict(k), Env())
@@ -450,6 +454,8 @@ class Interp:
                 cls = args[1]
                 cls = [c.name if isinstance(c, ClassRef) else c for c in (cls if isinstance(cls, (list, tuple)) else [cls])]
                 return self.is_instance(args[0], cls)
+            if n == 'vars' and len(args) == 1 and isinstance(args[0], Obj):
+                return {k: v for k, v in args[0].attrs.items() if not k.startswith('_')}
             if n == 'type' and len(args) == 1:
                 o = args[0]
                 return ClassRef(o.kind) if isinstance(o, Obj) else type(o).__name__
@@ -474,8 +480,13 @@ class Interp:
                     return list(zip(*args))
                 if n == 'range':
                     return list(range(*args))
-                return {'list': list, 'tuple': tuple, 'set': set, 'sorted': sorted, 'dict': dict, 'str': str, 'int': int, 'bool': bool,
-                        'any': any, 'all': all, 'max': max, 'min': min, 'id': id}[n](*args, **kwargs)
+                try:
+                    return {'list': list, 'tuple': tuple, 'set': set, 'sorted': sorted, 'dict': dict, 'str': str, 'int': int, 'bool': bool,
+                            'any': any, 'all': all, 'max': max, 'min': min, 'id': id}[n](*args, **kwargs)
+                except (TypeError, ValueError) as x:
+                    if any(isinstance(a, Obj) for a in args):
+                        raise AnalysisError(f'interpreter: `{ftxt}` applied to a stand-in that does not model it ({x})')
+                    raise Raised(type(x).__name__, e)
         f = self.ev(e.func, env) if not isinstance(e.func, ast.Name) else None
         if isinstance(f, BoundMethod):
             base = f.base
